@@ -12,6 +12,10 @@ def hooks_commits():
 
 # id -> dict(engine, category, technique, text, note, design_ref)
 CHECKS = {
+ "C03": dict(engine="h_span", category="model_checking", design="§3 C03",
+   technique="explicit-state BFS over programs on the Span API executed on fresh OS threads against two recording collectors, compared call-by-call with a handle/guard reference model",
+   text="Every program up to the stated depth over {span! with contextual / root / explicit parent at enabled and filtered-out callsites, clone, drop, borrowed enter guards dropped in any order, entered()/exit()/drop of EnteredSpan, in_scope (also unwinding by panic), record, follows_from, Span::current, or_current, tracing's and tracing-futures' Instrumented futures polled 0..n times, dropped or taken apart with into_inner, operations performed on either of two threads, thread default switched between the span's own collector, another collector and none} is executed; after every operation the exact list of collector calls (which collector, which method, which span id, which thread) must equal the model: one new_span, one clone_span per extra handle, one try_close per dropped handle, enter/exit pairs on the calling thread, everything on the creating collector, nothing for disabled spans.",
+   note="follows_from between spans of different collectors is outside the alphabet (the property does not define it). A handle is never dropped while a borrowed guard on it exists (as Rust's borrow checker enforces)."),
  "C14": dict(engine="h_fmt", category="exploration", design="§3 C14",
    technique="bounded-exhaustive input enumeration through the real JSON formatter, each record parsed by an independent strict JSON parser and compared with a value model; plus preemption-bounded exhaustive schedule exploration of concurrent record calls",
    text="Every string of length <= 2 over ASCII + 12 special code points (quotes, backslashes, controls, U+2028/2029, surrogate-range neighbours, astral) in every position (message, string/Debug/Display value, target, span name, span field value, event/span field name), boundary values of every integer width, floats incl. NaN/inf/-0/subnormal, bool, bytes, errors, under the flatten_event/current_span/span_list/display option combinations, in event fields and in span fields recorded at creation and in 1-3 later steps nested 1-3 deep: each record must be one line, one JSON object with unique keys at every level, and every recorded value must appear under the documented type mapping; spans listed root to leaf. 2-3 threads recording different fields on one span are explored over every interleaving up to the preemption bound: every field whose record() returned must appear.",
